@@ -329,12 +329,31 @@ def statId (fs : FS) (fuel : Nat) (cwd : Loc) (p : Str) : Option StatId :=
     | _ => none
   | none => none
 
+/-- (D454) `for resolved in (path_real, base_real): prefix = resolved; while ...` of check 3: the walk over
+the prefixes of a resolved path (`os.path.dirname` until it no longer changes).  Every prefix must be
+examinable by `os.lstat` (`lst p = none`: OSError, which fails closed) and none may be a symbolic
+link.  `lst` is the `os.lstat` of the model at hand (plain, with PATH_MAX, with search permissions).
+`dirname` of a string that it changes is shorter, so the loop runs at most length + 1 times: the
+first argument is that bound. -/
+def noLinkPrefix (lst : Str → Option Node) : Nat → Str → Bool
+  | 0, _ => false
+  | n + 1, p =>
+    match lst p with
+    | none => false
+    | some (Node.link _) => false
+    | some _ => if dirname p = p then true else noLinkPrefix lst n (dirname p)
+
+/-- the walk started on a resolved path -/
+def noLinkOn (lst : Str → Option Node) (p : Str) : Bool := noLinkPrefix lst (p.length + 1) p
+
 /-- Check 3 (`_check_path_containment`, "Check 3", with D182 and D451 / D452): `os.stat(path)` - the very
 string the `open` that follows uses - failing skips the layer (that open fails the same way); then the
 answer of `os.path.realpath` is cross-checked against the kernel: `samestat(stat(path), stat(path_real))`
 and `samestat(stat(base_dir), stat(base_real))`, and both answers must be fixed points of `realpath`
-(D453: `os.stat` follows links, equal inodes do not show that the answer is link-free); a failing stat
-or a difference raises (fail closed); `nlink > 1` raises; a file that is not regular raises. -/
+(D453: `os.stat` follows links, equal inodes do not show that the answer is link-free), and no prefix of
+either answer may be a symbolic link (D454: a fixed point of a `realpath` that reports a loop by
+returning its input need not be link-free; `noLinkOn`); a failing stat / lstat or a difference raises
+(fail closed); `nlink > 1` raises; a file that is not regular raises. -/
 def check3 (fs : FS) (kfuel fuel : Nat) (cwdS : Str) (cwd : Loc) (base loc : Str) : Bool :=
   match statFile fs kfuel cwd (tensorPath base loc) with
   | none => true
@@ -349,6 +368,8 @@ def check3 (fs : FS) (kfuel fuel : Nat) (cwdS : Str) (cwd : Loc) (base loc : Str
           realpath fs kfuel fuel cwdS cwd (tensorPath base loc)) &&
         decide (realpath fs kfuel fuel cwdS cwd (realpath fs kfuel fuel cwdS cwd base) =
           realpath fs kfuel fuel cwdS cwd base) &&
+        noLinkOn (lstat fs kfuel cwd) (realpath fs kfuel fuel cwdS cwd (tensorPath base loc)) &&
+        noLinkOn (lstat fs kfuel cwd) (realpath fs kfuel fuel cwdS cwd base) &&
         decide (n ≤ 1) && reg
     | _, _, _, _ => false
 
@@ -907,6 +928,8 @@ def checkContainmentP (fs : FS) (kfuel fuel : Nat) (cwdS : Str) (cwd : Loc) (bas
               realpathP fs kfuel fuel cwdS cwd (tensorPath base loc)) &&
             decide (realpathP fs kfuel fuel cwdS cwd (realpathP fs kfuel fuel cwdS cwd base) =
               realpathP fs kfuel fuel cwdS cwd base) &&
+            noLinkOn (lstatP fs kfuel cwd) (realpathP fs kfuel fuel cwdS cwd (tensorPath base loc)) &&
+            noLinkOn (lstatP fs kfuel cwd) (realpathP fs kfuel fuel cwdS cwd base) &&
             decide (n ≤ 1) && reg then Verdict.pass else Verdict.rej3
       | _, _, _, _ => Verdict.rej3
 
@@ -915,7 +938,8 @@ def cleanB (c : Str) : Bool := c != [] && c != DOT && c != DOTDOT && !c.contains
 
 /-- `s` is the canonical absolute string "/c1/c2/..." of entry names, and none of the locations [c1],
 [c1, c2], ... is a symbolic link in the tree: what a correct answer of `os.path.realpath` looks like.
-Hypothesis of `C10_pathmax_safe`, evaluated on every generated case (driver: path.readsP, field "lf"). -/
+Hypothesis of `C10_pathmax_safe`, evaluated on every generated case (driver: path.readsP, field "lf");
+since D454 the check establishes it itself (`noLinkOn`, theorem `C10_pathmax_safe_full`). -/
 def linkFreeAnswer (fs : FS) (s : Str) : Bool :=
   decide (s = '/' :: joinSep (comps s)) && (comps s).all cleanB &&
     (List.range (comps s).length).all (fun k =>
@@ -958,5 +982,158 @@ def callTB (fs : FS) (kfuel fuel : Nat) (cwdS : Str) (cwd : Loc) (p : TensorP) (
       callT fs kfuel fuel cwdS cwd p { kind := BaseKind.str, s := [] } ep st
     else (ReadResult.raised, [Ev.check Verdict.skipped], st)
   else (if p.zero = true ∧ ep = EntryPoint.tobytes then ReadResult.ok [] else ReadResult.raised, [], st)
+
+end IrVerif.Path
+
+/-! ## system calls that fail where the kernel would resolve: ENAMETOOLONG, EACCES, ... (D451 - D454) -/
+namespace IrVerif.Path
+
+/-- the system calls the containment check and the open that follows make, as the process sees them
+(None = OSError, whatever the errno) -/
+structure Sys where
+  lstat : Str → Option Node
+  statFile : Str → Option (Nat × Bool)
+  statId : Str → Option StatId
+  openF : Str → Option (Nat × Bool)
+
+/-- `_joinrealpath` (non-strict) over the process's `os.lstat`: an entry that cannot be examined is
+taken to be a non-link (posixpath.py `except OSError: is_link = False`).  The text of `joinRealP` with
+`sys.lstat` for `lstatP`. -/
+def joinRealV (sys : Sys) : Nat → Str → List Str → Seen → Str × Bool × Seen
+  | _, path, [], seen => (path, true, seen)
+  | fuel, path, name :: rest, seen =>
+    if name = [] ∨ name = DOT then joinRealV sys fuel path rest seen
+    else if name = DOTDOT then joinRealV sys fuel (parentPath path) rest seen
+    else
+      let newpath := pjoin path name
+      match sys.lstat newpath with
+      | some (Node.link target) =>
+        match Seen.find seen newpath with
+        | some (some p) => joinRealV sys fuel p rest seen
+        | some none => (pjoin newpath (joinSep rest), false, seen)
+        | none =>
+          match fuel with
+          | 0 => (pjoin newpath (joinSep rest), false, seen)
+          | fuel' + 1 =>
+            let r := joinRealV sys fuel' (if isabs target then ['/'] else path)
+              (splitSep (if isabs target then target.tail else target)) ((newpath, none) :: seen)
+            if r.2.1 = false then (pjoin r.1 (joinSep rest), false, r.2.2)
+            else joinRealV sys (fuel' + 1) r.1 rest ((newpath, some r.1) :: r.2.2)
+      | _ => joinRealV sys fuel newpath rest seen
+termination_by fuel _ rest _ => (fuel, rest.length)
+
+def realpathV (sys : Sys) (fuel : Nat) (cwdS : Str) (filename : Str) : Str :=
+  let r := joinRealV sys fuel (if isabs filename then ['/'] else [])
+    (splitSep (if isabs filename then filename.tail else filename)) []
+  abspath cwdS r.1
+
+/-- `_check_path_containment` (as repaired after D451 - D454) over the process's system calls: the text of
+`checkContainmentP` with `sys.*` for the PATH_MAX variants -/
+def checkContainmentV (sys : Sys) (fuel : Nat) (cwdS : Str) (base loc : Str) : Verdict :=
+  if base = [] then Verdict.skipped
+  else if check1 cwdS base loc = false then Verdict.rej1
+  else if hasNul base || hasNul loc then Verdict.rej2
+  else if contained (realpathV sys fuel cwdS base) (realpathV sys fuel cwdS (tensorPath base loc)) = false then
+    Verdict.rej2
+  else
+    match sys.statFile (tensorPath base loc) with
+    | none => Verdict.pass
+    | some (n, reg) =>
+      match sys.statId (tensorPath base loc),
+            sys.statId (realpathV sys fuel cwdS (tensorPath base loc)),
+            sys.statId base,
+            sys.statId (realpathV sys fuel cwdS base) with
+      | some a, some b, some c, some d =>
+        if decide (a = b) && decide (c = d) &&
+            decide (realpathV sys fuel cwdS (realpathV sys fuel cwdS (tensorPath base loc)) =
+              realpathV sys fuel cwdS (tensorPath base loc)) &&
+            decide (realpathV sys fuel cwdS (realpathV sys fuel cwdS base) = realpathV sys fuel cwdS base) &&
+            noLinkOn sys.lstat (realpathV sys fuel cwdS (tensorPath base loc)) &&
+            noLinkOn sys.lstat (realpathV sys fuel cwdS base) &&
+            decide (n ≤ 1) && reg then Verdict.pass else Verdict.rej3
+      | _, _, _, _ => Verdict.rej3
+
+/-- a read of an unmapped tensor through `tofile` (check, open, copy) over the process's system calls -/
+def readV (sys : Sys) (data : Nat → List Nat) (fuel : Nat) (cwdS : Str) (base loc : Str) (offset length : Nat) :
+    ReadResult × List Ev :=
+  let v := checkContainmentV sys fuel cwdS base loc
+  if rejecting v then (ReadResult.raised, [Ev.check v])
+  else
+    let p := tensorPath base loc
+    match sys.openF p with
+    | none => (ReadResult.raised, [Ev.check v, Ev.openEv p none])
+    | some (i, _) =>
+      if 0 < length ∧ (data i).length < offset + length then (ReadResult.raised, [Ev.check v, Ev.openEv p (some i)])
+      else (ReadResult.ok (sliceOf (data i) offset length), [Ev.check v, Ev.openEv p (some i)])
+
+/-- the system calls with PATH_MAX only: the model `checkContainmentP` / `readP` -/
+def sysP (fs : FS) (kfuel : Nat) (cwd : Loc) : Sys :=
+  { lstat := lstatP fs kfuel cwd, statFile := statFileP fs kfuel cwd, statId := statIdP fs kfuel cwd,
+    openF := openFile fs kfuel cwd }
+
+/-- Kernel path walk with search permissions (path_resolution(7), "Permissions"; fs/namei.c `may_lookup`
+at the top of every iteration of `link_path_walk`): looking up a component - a name, "." or ".." - needs
+search (x) permission for the current uid on the directory it is looked up in; `search cur = false`:
+EACCES.  An empty piece (doubled or trailing separator) is no lookup.  Otherwise the text of `walk`. -/
+def walkA (fs : FS) (search : Loc → Bool) : Nat → Loc → List Str → Bool → Option Loc
+  | _, cur, [], _ => some cur
+  | fuel, cur, c :: rest, follow =>
+    match fs.get cur with
+    | some Node.dir =>
+      if c = [] then walkA fs search fuel cur rest follow
+      else if search cur = false then none
+      else if c = DOT then walkA fs search fuel cur rest follow
+      else if c = DOTDOT then walkA fs search fuel cur.dropLast rest follow
+      else
+        match fs.get (cur ++ [c]) with
+        | none => none
+        | some (Node.link t) =>
+          if rest = [] ∧ follow = false then some (cur ++ [c])
+          else
+            match fuel with
+            | 0 => none
+            | fuel' + 1 => walkA fs search fuel' (startLoc cur t) (splitSep t ++ rest) follow
+        | some _ => walkA fs search fuel (cur ++ [c]) rest follow
+    | _ => none
+termination_by fuel _ comps _ => (fuel, comps.length)
+
+/-- resolution of a path string by the kernel for a process that may be refused: PATH_MAX, then the walk
+with search permissions -/
+def kresolveA (fs : FS) (search : Loc → Bool) (fuel : Nat) (cwd : Loc) (p : Str) (follow : Bool) : Option Loc :=
+  if p = [] ∨ PATH_MAX ≤ p.length then none else walkA fs search fuel (startLoc cwd p) (splitSep p) follow
+
+/-- the system calls of an unprivileged process: PATH_MAX and search permissions (`os.lstat`, `os.stat`
+need no permission on the object itself; `open(.., "rb")` of files that are readable once reached) -/
+def sysA (fs : FS) (search : Loc → Bool) (kfuel : Nat) (cwd : Loc) : Sys :=
+  { lstat := fun p =>
+      match kresolveA fs search kfuel cwd p false with
+      | some l => fs.get l
+      | none => none,
+    statFile := fun p =>
+      match kresolveA fs search kfuel cwd p true with
+      | some l =>
+        match fs.get l with
+        | some (Node.file i) => some (fs.nlink i, true)
+        | some (Node.other i) => some (fs.nlink i, false)
+        | some Node.dir => some (fs.dnlink l, false)
+        | _ => none
+      | none => none,
+    statId := fun p =>
+      match kresolveA fs search kfuel cwd p true with
+      | some l =>
+        match fs.get l with
+        | some (Node.file i) => some (StatId.ino i)
+        | some (Node.other i) => some (StatId.oth i)
+        | some Node.dir => some (StatId.dir l)
+        | _ => none
+      | none => none,
+    openF := fun p =>
+      match kresolveA fs search kfuel cwd p true with
+      | some l =>
+        match fs.get l with
+        | some (Node.file i) => some (i, true)
+        | some (Node.other i) => some (i, false)
+        | _ => none
+      | none => none }
 
 end IrVerif.Path
